@@ -283,11 +283,15 @@ def load_known():
 
 def write_replay(pid, unit, tier, v):
     h = hashlib.sha1(v["key"].encode()).hexdigest()[:10]
-    os.makedirs(os.path.join(VERIF, "replays"), exist_ok=True)
-    path = os.path.join(VERIF, "replays", "%s-%s.json" % (pid, h))
+    rdir = os.environ.get("VERIF_REPLAY_DIR")
+    if not rdir:
+        # runs against another tree (mutants, candidate fixes) must not litter /verif/replays
+        rdir = os.path.join(VERIF, "replays") if os.path.realpath(REPO) == "/repo" else os.path.join(scratch_root(), "replays-other-tree")
+    os.makedirs(rdir, exist_ok=True)
+    path = os.path.join(rdir, "%s-%s.json" % (pid, h))
     body = {"property": pid, "key": v["key"], "msg": v["msg"], "case": v.get("case"), "unit": unit,
             "job": v.get("job", ""), "tier": tier, "replay": v.get("replay"), "count": v.get("count", 1),
-            "how": "./check replay " + os.path.relpath(path, VERIF)}
+            "how": "./check replay " + path}
     with open(path, "w") as f:
         json.dump(body, f, indent=1, default=str)
     return path
